@@ -103,6 +103,10 @@ func (g *G) genStored(focus string) storedSpec {
 	}
 	if g.chance(0.1) {
 		s.flags = append(s.flags, pick(g, `no-cache="X-Secret"`, `no-cache="X-Secret"`, `no-cache="ETag"`, `no-cache="Last-Modified, Etag"`))
+		if g.chance(0.3) {
+			// the qualified form given twice: the fields of both lists are covered
+			s.flags = append(s.flags, pick(g, `no-cache="X-Other"`, `no-cache="x-other, Date"`, `no-cache=X-Other`))
+		}
 	}
 	if g.chance(0.35) {
 		s.swr = pick(g, "0", "1", "5", "10", "60", "3600", "junk", bigNums[g.r.Intn(len(bigNums))])
